@@ -95,4 +95,30 @@ Section Tie.
     eval N p a = Val lv -> eval N p (Power a b) = Val sv ->
     call N gen_formula_right_Power [VT m; VT lv; VT sv] = ret (power_formula_right N p a b m).
   Proof. intros. unfold power_formula_right. run. go. Qed.
+
+  (** ** _value_formula: which math function, with which arguments in which order *)
+  Lemma value_Minus_tied : forall x y, call N gen_value_Minus [VT x; VT y] = ret (Val (mf_minus N x y)).
+  Proof. reflexivity. Qed.
+  Lemma value_Negation_tied : forall x, call N gen_value_Negation [VT x] = ret (Val (mf_negation N x)).
+  Proof. reflexivity. Qed.
+  Lemma value_Divide_tied : forall x y, call N gen_value_Divide [VT x; VT y] = ret (mf_divide N x y).
+  Proof. intros. unfold call, ret. cbn -[mf_divide]. destruct (mf_divide N x y); reflexivity. Qed.
+  Lemma value_Reciprocal_tied : forall x, call N gen_value_Reciprocal [VT x] = ret (mf_reciprocal N x).
+  Proof. intros. unfold call, ret. cbn -[mf_reciprocal]. destruct (mf_reciprocal N x); reflexivity. Qed.
+  Lemma value_Power_tied : forall x y, call N gen_value_Power [VT x; VT y] = ret (mf_power N x y).
+  Proof. intros. unfold call, ret. cbn -[mf_power]. destruct (mf_power N x y); reflexivity. Qed.
+  Lemma value_NthPower_tied : forall x n, call N gen_value_NthPower [VT x; VZ (Zpos n)] = ret (mf_nth_power N x n).
+  Proof. intros. unfold call, ret. cbn -[mf_nth_power]. destruct (mf_nth_power N x n); reflexivity. Qed.
+  Lemma value_NthRoot_tied : forall x n, call N gen_value_NthRoot [VT x; VZ (Zpos n)] = ret (mf_nth_root N x n).
+  Proof. intros. unfold call, ret. cbn -[mf_nth_root]. destruct (mf_nth_root N x n); reflexivity. Qed.
+  Lemma value_Exponential_tied : forall x b, call N gen_value_Exponential [VT x; VT b] = ret (mf_exponential N x b).
+  Proof. intros. unfold call, ret. cbn -[mf_exponential]. destruct (mf_exponential N x b); reflexivity. Qed.
+  Lemma value_Logarithm_tied : forall x b, call N gen_value_Logarithm [VT x; VT b] = ret (mf_logarithm N x b).
+  Proof. intros. unfold call, ret. cbn -[mf_logarithm]. destruct (mf_logarithm N x b); reflexivity. Qed.
+  Lemma value_Cosine_tied : forall x, call N gen_value_Cosine [VT x] = ret (mf_cosine N x).
+  Proof. intros. unfold call, ret. cbn -[mf_cosine]. destruct (mf_cosine N x); reflexivity. Qed.
+  Lemma value_Sine_tied : forall x, call N gen_value_Sine [VT x] = ret (mf_sine N x).
+  Proof. intros. unfold call, ret. cbn -[mf_sine]. destruct (mf_sine N x); reflexivity. Qed.
+  Lemma value_star_tied : gen_value_star = [("Add", "add"); ("Multiply", "multiply")].
+  Proof. reflexivity. Qed.
 End Tie.
